@@ -239,6 +239,29 @@ void harness::run_case(const eng::Raw& raw, eng::Ctx& ctx)
 		tc::expect_unchanged(ctx, (bu ? "isect-bu" : "isect") + std::string(":lhs"), a, VA);
 		tc::expect_unchanged(ctx, (bu ? "isect-bu" : "isect") + std::string(":rhs"), b, VB);
 	}
+	// --- caller-supplied pre-filled product maps: the complete map of a previous call (same operands), also across
+	//     the two intersection algorithms (their values are dense 0..size-1, so new pairs cannot collide)
+	{
+		ProdMap fromTD, fromBU;
+		{
+			eng::LibSection ls(ctx, "Intersection:collect-maps");
+			(void)ExplicitTreeAut::Intersection(a, b, &fromTD);
+			(void)ExplicitTreeAut::IntersectionBU(a, b, &fromBU);
+		}
+		struct V { const char* name; bool bu; const ProdMap* pre; };
+		const V variants[] = {{"isect-bu-reused-map", true, &fromBU}, {"isect-reused-map", false, &fromTD},
+			{"isect-bu-map-of-isect", true, &fromTD}, {"isect-map-of-isect-bu", false, &fromBU}};
+		for (const V& v : variants) {
+			ProdMap pm(*v.pre);
+			ExplicitTreeAut i;
+			{
+				eng::LibSection ls(ctx, std::string(v.name));
+				i = v.bu ? ExplicitTreeAut::IntersectionBU(a, b, &pm) : ExplicitTreeAut::Intersection(a, b, &pm);
+			}
+			check_product(ctx, v.name, lib::read(i), VA, VB, pm, wantProd);
+			ctx.count("prefilled_product_maps");
+		}
+	}
 	// --- the CLI flow with named states
 	cli_flow(ctx, c, static_cast<int>((flavour / 8) % 3));
 }
